@@ -45,18 +45,18 @@ Print Assumptions C07_threshold_range.
 
 (* placement: when the guard fires the run stops before changing anything -- no entry is created, updated
    or deleted, no event is reported -- with a non-zero status; and it fires whenever the test says so *)
-Theorem C07_refusal_changes_nothing : forall rf ds c now U src dst,
-  r_refused (run rf ds c now U src dst) = true ->
-  r_fs (run rf ds c now U src dst) = dst /\ exit_status c (run rf ds c now U src dst) = 1 /\ r_events (run rf ds c now U src dst) = nil.
+Theorem C07_refusal_changes_nothing : forall rf ds c now U keep src dst,
+  r_refused (run rf ds c now U keep src dst) = true ->
+  r_fs (run rf ds c now U keep src dst) = dst /\ exit_status c (run rf ds c now U keep src dst) = 1 /\ r_events (run rf ds c now U keep src dst) = nil.
 Proof. exact refusal_changes_nothing. Qed.
 Print Assumptions C07_refusal_changes_nothing.
 
-Theorem C07_guard_fires : forall rf ds c now U src dst,
+Theorem C07_guard_fires : forall rf ds c now U keep src dst,
   let listing := filter (fun p => match dst p with Some _ => true | None => false end) U in
-  let dels := plan_deletions src listing in
+  let dels := plan_deletions (keep ++ src) listing in
   c_delete c = true -> c_force_delete c = false -> dels <> nil ->
   rf (Z.of_nat (length dels)) (Z.of_nat (length listing)) (c_threshold c) = true ->
-  r_refused (run rf ds c now U src dst) = true.
+  r_refused (run rf ds c now U keep src dst) = true.
 Proof. exact refuses_when_guard_fires. Qed.
 Print Assumptions C07_guard_fires.
 
